@@ -77,6 +77,7 @@ type FuncExec struct {
 
 type pathState struct {
 	st       *State
+	loopSnap map[int]*State
 	variants map[*LoopInfo][]Term
 	unrolls  map[*LoopInfo]int
 	trail    []string
@@ -89,6 +90,10 @@ func (ps *pathState) fork() *pathState {
 	}
 	for k, v := range ps.unrolls {
 		n.unrolls[k] = v
+	}
+	n.loopSnap = map[int]*State{}
+	for k, v := range ps.loopSnap {
+		n.loopSnap[k] = v
 	}
 	n.trail = append([]string(nil), ps.trail...)
 	return n
@@ -390,7 +395,7 @@ func (fx *FuncExec) specEnv(ps *pathState, pos token.Pos, vars map[string]Val) *
 			}
 		}
 	}
-	return &SpecEnv{st: ps.st, old: fx.entry, vars: vars, fx: fx, pos: pos}
+	return &SpecEnv{st: ps.st, old: fx.entry, vars: vars, fx: fx, pos: pos, loopSnap: ps.loopSnap}
 }
 
 func (fx *FuncExec) loopVars(ps *pathState, li *LoopInfo) map[string]Val {
@@ -481,6 +486,10 @@ func (fx *FuncExec) execBlock(ps *pathState, blk *ssa.BasicBlock, pred *ssa.Basi
 				}
 			}
 			fx.havocLoop(ps, li)
+			if ps.loopSnap == nil {
+				ps.loopSnap = map[int]*State{}
+			}
+			ps.loopSnap[li.ord] = st.snapshot()
 			env = fx.specEnv(ps, pos, fx.loopVars(ps, li))
 			if li.spec != nil {
 				for _, cl := range li.spec.Inv {
